@@ -724,7 +724,7 @@ fn build_world(rng: &mut Rng, steps: usize, rep: &mut Report, w: &mut World) {
                         rep.count("save_load");
                         check_history(w, rep, r, rng, "after save+load");
                     }
-                    Ok(Err(e)) => rep.fail(&["C11"], "meta|load-failed", &format!("load(save) failed: {}", e), json!({"log": w.log})),
+                    Ok(Err(e)) => rep.fail(&["C11", "C10"], "meta|load-failed", &format!("load(save) failed: {}", e), json!({"log": w.log})),
                     Err(p) => rep.fail(&["C11", "C15"], &format!("panic|load|{}", p.signature()), &format!("load(save) panicked: {}", p.message), json!({"log": w.log})),
                 }
                 what = "save+load".into();
